@@ -19,7 +19,7 @@ RULE = ('one descriptor = (device profile, api sync/async, trigger kind in {link
         'signature) among runs in which the trigger actually fired.')
 ASSUMPTIONS = ['link errors are reported the two ways RadioDriver does: from its own thread, or from inside send_packet '
                'in the calling thread', 'virtual-time horizon of 150 s per blocking call stands in for "bounded time"']
-REQUIRED = ['mon.close_in_a_port_or_parameter_callback_of_the_application', 'mon.attempts', 'mon.trigger_fired', 'mon.reconnects', 'mon.fault_before_first_packet',
+REQUIRED = ['mon.attempts_with_duplicated_answers', 'mon.close_in_a_port_or_parameter_callback_of_the_application', 'mon.attempts', 'mon.trigger_fired', 'mon.reconnects', 'mon.fault_before_first_packet',
             'mon.fault_mid_setup', 'mon.fault_after_connected', 'mon.close_in_callback', 'mon.sync_api', 'mon.async_api',
             'mon.line_preempted_runs', 'mon.three_cycle_histories', 'mon.fault_during_driver_connect']
 DESC_TIMEOUT = 1500
@@ -56,7 +56,8 @@ def cases(tier, seed):
                         n += 1
                         out.append({'seed': seed * 1000003 + n, 'nlog': nlog, 'nparam': nparam, 'proto': proto,
                                     'mems': mk, 'api': api, 'trigger': trig, 'reporter': reporter, 'sched': pol,
-                                    'line_p': lp, 'S': S, 'resend': rnd.random() < 0.3, 'prefault': n % 3 == 0, 'drain': n % 2 == 1})
+                                    'line_p': lp, 'S': S, 'resend': rnd.random() < 0.3, 'prefault': n % 3 == 0, 'drain': n % 2 == 1,
+                                    'dup': n % 4 == 2})
     return out
 
 
@@ -73,11 +74,20 @@ def one_run(desc, k, sseed, calibrate=False):
     from cflib.crazyflie import Crazyflie, State
     from cflib.crazyflie.syncCrazyflie import SyncCrazyflie
     prof = gen.profile(desc['seed'] // 7, desc['nlog'], desc['nparam'], proto=desc['proto'], mems=_mems(desc['mems']))
+    if desc.get('dup') and desc['proto'] >= 4:
+        # several parameters with an extended type (the persistence marker is asked for one parameter at a time)
+        for i, p in enumerate(prof['param'][:-1] if len(prof['param']) > 2 else prof['param']):
+            p['ext'] = True
+            p['pers'] = i % 3 != 1
     dev = simcf.SimCF(prof)
     spec = simlink.LinkSpec(dev, needs_resending=desc['resend'])
     spec.deliver_queued_after_close = bool(desc.get('drain'))
     if desc.get('drain') and (desc['seed'] // 2) % 2 == 0:
         spec.latency = 0.0       # answers are in the driver's queue the moment the request has gone out
+    if desc.get('dup'):
+        # every fourth answer arrives twice (the acknowledgement of the first copy was lost on the air)
+        drnd = random.Random(desc['seed'] ^ 0xD0B1)
+        spec.reply_policy = lambda sp, n, h, d: [(0.0, h, d)] + ([(drnd.choice((0.0, 0.0, 0.0004)), h, d)] if drnd.random() < 0.25 else [])
     uri = 'sim://c02'
     simlink.SIMS[uri] = spec
     exp_log, exp_param = oracles.expected_log(dev), oracles.expected_param(dev)
@@ -532,6 +542,8 @@ def run(desc, ctx):
                     ctx.count('mon.fault_during_driver_connect')
                     if res.get('zombie_link'):
                         ctx.count('obs.dead_driver_left_in_cf_link_after_error_during_connect')
+            if desc.get('dup'):
+                ctx.count('mon.attempts_with_duplicated_answers')
             ctx.count('mon.sync_api' if desc['api'] == 'sync' else 'mon.async_api')
             if desc['line_p'] > 0:
                 ctx.count('mon.line_preempted_runs')
